@@ -690,6 +690,20 @@ package pipeline
 //@     pure
 //@     set nstop := nstop + 1
 
+// Start: the main output is started with this router; the dead queue with a
+// router that has no dead queue - when the dead queue itself gives up a batch, its
+// error callback (the same code as in every batching output: Router.Fail for each
+// event) must not feed the events back into the dead queue (C09: handed exactly once).
+
+//@ func (*Router).Start
+//@   ghost nstart int = 0
+//@   requires params != nil
+//@   callee Start(c, prm)
+//@     requires prm != nil && prm.Router != nil
+//@     requires nstart == 0 ==> recv == r.output && prm.Router == r
+//@     requires nstart == 1 ==> recv == r.deadQueue && prm.Router.deadQueue == nil
+//@     set nstart := nstart + 1
+
 //@ func (*Router).Out
 //@   ghost nout int = 0
 //@   ensures nout == 1
